@@ -18,6 +18,7 @@ ASSUMPTIONS = {
 }
 
 _T = []
+FS = ["--cbmc-args", "--max-field-sensitivity-array-size", "1024"]
 
 
 def h(name, prop, family, bound, tier="quick", required=True, mem=12, timeout=None, desc="",
@@ -225,7 +226,6 @@ ASSUMPTIONS["C16"] = [
 
 
 # ------------------------------------------------------------------------------------------- C13
-FS = ["--cbmc-args", "--max-field-sensitivity-array-size", "1024"]
 C13_BOUND = ("shape %s concrete; ids, clocks (full width), scalar payloads and both cut positions "
              "symbolic; content %s")
 
@@ -300,7 +300,26 @@ c09("r3_col_right_clock", "R3", R3B % "right-clock", "DecoderV2::read_right_id (
 c09("r3_col_info", "R3", "info column = every byte string of length 0..5; 3 reads vs model",
     "DecoderV2::read_info (Rle) vs model", timeout=1200, kani_args=["--solver", "minisat"])
 
+R5B = ("shape %d concrete; ids, clocks (full width) and scalar payloads symbolic; content %s; recording "
+       "Encoder")
+for i in range(8):
+    c09("r5_encode_deleted_sh%d" % i, "R5", R5B % (i, "Deleted(5)"), "Item::encode vs block-format model",
+        kani_args=FS)
+for n, sh, c in [("string_sh5", 5, "String"), ("any_sh2", 2, "Any [BigInt, Bool]"), ("json_sh3", 3, "JSON"),
+                 ("binary_sh4", 4, "Binary"), ("embed_sh6", 6, "Embed"), ("format_sh1", 1, "Format"),
+                 ("type_array_sh0", 0, "Type(Array)"), ("type_xml_sh7", 7, "Type(XmlElement)")]:
+    c09("r5_encode_" + n, "R5", R5B % (sh, c), "Item::encode vs block-format model", kani_args=FS)
+for n, sh, c in [("deleted_sh3", 3, "Deleted(5)"), ("string_sh0", 0, "String with an astral character"),
+                 ("any_sh5", 5, "Any [BigInt, Bool, Null]"), ("json_sh2", 2, "JSON of three strings"),
+                 ("binary_sh4", 4, "Binary")]:
+    c09("r5_slice_" + n, "R5", R5B % (sh, c), "Block::as_slice + BlockSlice::encode (the path of "
+        "encode_state_as_update / encode_diff for every block) vs block-format model", kani_args=FS)
+
 ASSUMPTIONS["C09"] = [
+    "R5 decides the *encoder* half of the block format: Item::encode and the untrimmed BlockSlice::encode make "
+    "exactly the encoder calls of the reference model (v1 and v2 at once, through a recording Encoder). That "
+    "these calls are read back as the same item by Update::decode_block is validated natively on 128 concrete "
+    "items per run (c13_model::tests::item_encode_decodes_back_v1_v2), not decided by the solver",
     "R3 decides the *decoder* half of the v2 run-length columns against a reference model of the format "
     "(UintOptRle, IntDiffOptRle, Rle); the encoder half (EncoderV2's private column encoders, reachable "
     "through a hook) followed by a decoder needs 30-60 GB with either solver and is not decided",
